@@ -206,6 +206,43 @@ func render(format string, items []Item, l Layout) []byte {
 			Host    string            `json:"host"`
 			Body    string            `json:"body,omitempty"`
 		}
+		// "-omit" layouts leave out the optional keys tag and host when they are empty
+		type entOmit struct {
+			Tag     string            `json:"tag,omitempty"`
+			URI     string            `json:"uri"`
+			Method  string            `json:"method"`
+			Headers map[string]string `json:"headers,omitempty"`
+			Host    string            `json:"host,omitempty"`
+			Body    string            `json:"body,omitempty"`
+		}
+		omit := strings.HasSuffix(l.JSON, "-omit")
+		l.JSON = strings.TrimSuffix(l.JSON, "-omit")
+		marshal := func(v any, indent string) []byte {
+			conv := func(e ent) any {
+				if omit {
+					return entOmit(e)
+				}
+				return e
+			}
+			var x any
+			switch t := v.(type) {
+			case ent:
+				x = conv(t)
+			case []ent:
+				l := make([]any, len(t))
+				for i := range t {
+					l[i] = conv(t[i])
+				}
+				x = l
+			}
+			var bs []byte
+			if indent == "" {
+				bs, _ = json.Marshal(x)
+			} else {
+				bs, _ = json.MarshalIndent(x, "", indent)
+			}
+			return bs
+		}
 		var es []ent
 		for _, it := range items {
 			e := ent{Tag: it.Tag, URI: it.URI, Method: it.Method, Host: it.Host, Body: string(it.Body)}
@@ -221,9 +258,9 @@ func render(format string, items []Item, l Layout) []byte {
 		case "array", "arraypretty":
 			var bs []byte
 			if l.JSON == "array" {
-				bs, _ = json.Marshal(es)
+				bs = marshal(es, "")
 			} else {
-				bs, _ = json.MarshalIndent(es, "", "  ")
+				bs = marshal(es, "  ")
 			}
 			if l.Blank {
 				b.WriteString("\n \n")
@@ -237,9 +274,9 @@ func render(format string, items []Item, l Layout) []byte {
 				sep()
 				var bs []byte
 				if l.JSON == "pretty" {
-					bs, _ = json.MarshalIndent(e, "", "\t")
+					bs = marshal(e, "\t")
 				} else {
-					bs, _ = json.Marshal(e)
+					bs = marshal(e, "")
 				}
 				if l.Surround {
 					b.WriteString("  ")
@@ -339,8 +376,22 @@ func itemAlphabet(format string, reduced bool) []Item {
 			}
 		}
 	}
+	// request URIs outside Go's default encoding: an escaped slash, lower-case escapes, sub-delims,
+	// an empty query (appended last: the reduced sets above pick their members by index)
+	for _, u := range uriExotic {
+		switch format {
+		case "uri":
+			out = append(out, Item{URI: u, Tag: "t"})
+		case "uripost":
+			out = append(out, Item{URI: u, Body: []byte("a")})
+		default:
+			out = append(out, Item{Method: "GET", URI: u, Host: "h.example"})
+		}
+	}
 	return out
 }
+
+var uriExotic = []string{"/a%2fb/(x)!*'", "/q?", "/%7euser/a+b?x=%3d&y=a+b"}
 
 func layouts(format string) []Layout {
 	var out []Layout
@@ -348,8 +399,8 @@ func layouts(format string) []Layout {
 		for _, bl := range []bool{false, true} {
 			for _, su := range []bool{false, true} {
 				if format == "jsonline" {
-					for _, j := range []string{"lines", "pretty", "array", "arraypretty"} {
-						if su && (j == "array" || j == "arraypretty") {
+					for _, j := range []string{"lines", "pretty", "array", "arraypretty", "lines-omit", "array-omit"} {
+						if su && strings.HasPrefix(j, "array") {
 							continue
 						}
 						out = append(out, Layout{FinalNL: nl, Blank: bl, Surround: su, JSON: j})
